@@ -146,8 +146,6 @@ lsp_h_line_col!(lsp_offset_to_line_col, 3, any_chars);
 lsp_h_roundtrip!(lsp_roundtrip_n2, 2, any_chars);
 // @unit id=lsp.roundtrip.cls props=C14 tier=thorough kind=bounded bound="texts of exactly 3 chars, each one of 7 class representatives (ASCII, LF, CR, 2-byte, 3-byte, astral, space)" timeout=3600 fn=position_to_offset,offset_to_position,offset_to_line_col
 lsp_h_roundtrip!(lsp_roundtrip_cls, 3, any_class_chars);
-// @unit id=lsp.position_to_offset.cls props=C14 tier=thorough kind=bounded bound="texts of exactly 3 chars, each one of 7 class representatives; every editor position (boundary, past line end, past last line)" timeout=3600 fn=position_to_offset
-lsp_h_position!(lsp_position_to_offset_cls, 3, any_class_chars);
 // @unit id=lsp.position_to_offset.n2 props=C14 tier=thorough kind=bounded bound="texts of exactly 2 chars, FULL char domain" timeout=3600 fn=position_to_offset
 lsp_h_position!(lsp_position_to_offset_n2, 2, any_chars);
 
